@@ -159,7 +159,9 @@ class ToStringMarshaller(AbstractMarshaller[T], tp.Generic[T]):
         Args:
             val: The value to marshal.
         """
-        text = str(val)
+        # (The text of a `str` is its characters, however its class prints: `str()` of a
+        #   member of `class Kind(str, Enum)` is "Kind.B".)
+        text = str.__str__(val) if isinstance(val, str) else str(val)
         # (`str()` hands back whatever `__str__` returns: a subclass instance if it returns itself.)
         return text if text.__class__ is str else str.__str__(text)
 
